@@ -198,7 +198,7 @@ Section ZXGates.
      Gates.v: split the indices into bits, unfold, compute, and decide the
      polynomial identity modulo i^2 = -1, 2*half = 1, 2*isq2^2 = 1, e*conj e = 1 *)
   Ltac unfold_all :=
-    unfold crz_exp, crx_exp, cu1_exp, y_exp, cz_exp, cx_exp, spider, escalar;
+    unfold crz_exp, crx_exp, crx_fixed_exp, cu1_exp, y_exp, cz_exp, cx_exp, spider, escalar;
     cbn [esem edom ecod zbox_sem zbox_dom zbox_cod spider_sem zscal_sem qgate_box gate_lam];
     rewrite ?pE_neg, ?pE_zero, ?pE_half;
     unfold box_eval, gate1_eval, gate2_eval; cbn [gate1_is_dagger];
@@ -263,22 +263,11 @@ Section ZXGates.
       rewrite ?pE_neg, ?pE_zero, ?H1; brute.
   Qed.
 
-  (* the proposed repair of CRx: the control is copied by a Z spider, a Hadamard sits on
-     the leg towards the phase gadget, and the phases are halved:
-       Z(1, 2) @ X(1, 2, phase / 2)
-       >> Id(1) @ (H @ Id(1) >> Z(2, 1) >> X(1, 0, -phase / 2)) @ Id(1)
-     q stands for phase / 2 *)
-  Definition crx_fixed_exp (q : PA) : zexp PA :=
-    EThen (ETensor (spider KZ 1 2 pzero) (spider KX 1 2 q))
-          (ETensor (ETensor (EId 1)
-                      (EThen (EThen (ETensor (EBox ZHad) (EId 1)) (spider KZ 2 1 pzero))
-                             (spider KX 1 0 (pneg q))))
-                   (EId 1)).
-
+  (* the repaired CRx diagram (ZX.v: crx_fixed_exp), q standing for phase / 2 *)
   Lemma crx_fixed_exp_sem : forall q,
     meq 2 2 (esem (crx_fixed_exp q)) (mscale risq2 (box_eval (BG2 (G2Rot RCRx (pE q * pE q))))).
   Proof.
     intros q i o Hi' Ho'. with_phase q.
-    dbits; unfold crx_fixed_exp; brute.
+    dbits; brute.
   Qed.
 End ZXGates.
